@@ -6,7 +6,7 @@ from .. import machine as M
 from ..core import parallel_map, b64, hx, BUILD, LEAN, LineProc
 
 DRIVERS = ["drv_machine"]
-GENERATED = ["Handlers", "Markers", "ColorOnlyCfg", "OptionsTables"]
+GENERATED = ["Handlers", "Markers", "ColorOnlyCfg", "OptionsTables", "PaintLine", "PaintPrefix"]
 
 EXTRA = [[], ["--side-by-side"], ["--line-numbers"], ["--navigate"], ["--diff-so-fancy"], ["--diff-highlight"],
          ["--side-by-side", "--line-numbers"], ["--commit-decoration-style", "box"], ["--file-decoration-style", "ul"],
@@ -254,6 +254,173 @@ def show_config(out):
 DECO_WORDS = {"box", "ul", "ol", "underline", "overline"}
 
 
+# ------------------------------------------------------------------ the bytes painted for a hunk line (session 4, T16)
+
+# styles / options that change how a hunk line is painted (sections, colours, fill) but not what it shows
+PAINT_EXTRA = [[], [], ["--minus-style", "red"], ["--plus-style", "bold green ul"], ["--syntax-theme", "none"], ["--zero-style", "blue"],
+               ["--minus-emph-style", "bold red 52", "--max-line-distance", "0.9"], ["--plus-emph-style", "black green"],
+               ["--width", "20"], ["--minus-style", "syntax 52", "--plus-style", "syntax 22"], ["--line-fill-method", "spaces"],
+               ["--true-color", "always"], ["--keep-plus-minus-markers"], ["--minus-non-emph-style", "dim red"]]
+# a context-line style with a background colour: `paint_zero_line` asks for the space fill (see `zero_style_background_pads_context_lines`)
+ZERO_BG = [["--zero-style", "normal red"], ["--zero-style", "syntax 17"]]
+PAINT_BODIES = [b for b in M.BODIES if not b.startswith(("<<<", "===", ">>>", "|||"))] + ["\tlet a = 1;", "\tlet b = 20;", "a\tb\tc", "x  "]
+
+
+def split_body(rng, b):
+    """the text of a line cut into 1-3 sections (the model paints them in different styles)"""
+    cuts = sorted(rng.randint(0, len(b)) for _ in range(rng.choice([0, 0, 1, 2])))
+    parts, prev = [], 0
+    for c in cuts + [len(b)]:
+        parts.append(b[prev:c]); prev = c
+    return parts
+
+
+def gen_painted_diff(rng):
+    """a git stream with one combined-diff section whose removed / added blocks mix different prefix columns (lines changed
+    relative to different parents next to each other), and a unified section. Returns (lines, meta): meta[i] = None for a
+    line that is not a hunk line, else dict(kind m|z|p, dt u|c, pre, body, secs, block) — `block` numbers the runs of
+    consecutive lines of one kind (what one call of paint_lines gets)."""
+    n = rng.choice([2, 2, 2, 3, 4])
+    p = rng.choice(M.PATHS)
+    lines, meta = [], []
+
+    def add(l, m=None):
+        lines.append(l); meta.append(m)
+    add(f"diff --cc {p}"); add("index " + ",".join(["1111111"] * n) + "..0000000"); add(f"--- a/{p}"); add(f"+++ b/{p}")
+    ats = "@" * (n + 1)
+    add(ats + "".join(" -1,9" for _ in range(n)) + " +1,9 " + ats + rng.choice(["", " fn main() {"]))
+    block = [0]
+
+    def hunk_line(kind, dt, pre, body):
+        prev = next((m for m in reversed(meta) if True), None)
+        if not (prev and prev["kind"] == kind and prev["dt"] == dt):
+            block[0] += 1
+        add(pre + body, dict(kind=kind, dt=dt, pre=pre, body=body, secs=split_body(rng, body), block=block[0]))
+
+    def cols(ch):
+        while True:
+            c = "".join(rng.choice([ch, " "]) for _ in range(n))
+            if ch in c:
+                return c
+    for _ in range(rng.randint(1, 3)):
+        for _ in range(rng.randint(0, 2)):
+            hunk_line("z", "c", " " * n, rng.choice(PAINT_BODIES))
+        if rng.random() < 0.8:
+            for _ in range(rng.randint(2, 4)):
+                hunk_line("m", "c", cols("-"), rng.choice(PAINT_BODIES))
+        if rng.random() < 0.8:
+            for _ in range(rng.randint(2, 4)):
+                hunk_line("p", "c", cols("+"), rng.choice(PAINT_BODIES))
+    hunk_line("z", "c", " " * n, rng.choice(PAINT_BODIES))
+    if rng.random() < 0.6:
+        q = rng.choice(M.PATHS)
+        add(f"diff --git a/{q} b/{q}"); add("index 1111111..2222222 100644"); add(f"--- a/{q}"); add(f"+++ b/{q}")
+        add("@@ -1,5 +1,5 @@")
+        for _ in range(rng.randint(1, 2)):
+            hunk_line("z", "u", " ", rng.choice(PAINT_BODIES))
+            for _ in range(rng.randint(0, 2)):
+                hunk_line("m", "u", "-", rng.choice(PAINT_BODIES))
+            for _ in range(rng.randint(0, 2)):
+                hunk_line("p", "u", "+", rng.choice(PAINT_BODIES))
+        hunk_line("z", "u", " ", rng.choice(PAINT_BODIES))
+    return lines, meta
+
+
+def painted_class(meta, k):
+    """input class of line k for a violation signature"""
+    m = meta[k]
+    if m is None:
+        return "header-line"
+    if m["dt"] == "u":
+        return "unified"
+    same = {x["pre"] for x in meta if x and x["block"] == m["block"]}
+    return f"combined-{len(m['pre'])}-parents:" + ("mixed-prefix-block" if len(same) > 1 else "uniform-block")
+
+
+def copaint_requests(meta, olines):
+    """one `copaint.block` request per block (lean/Driver/Machine.lean): keep-markers 1 = the preset of color-only"""
+    reqs, idx = [], []
+    cur = None
+    for k, m in enumerate(meta):
+        if m is None:
+            continue
+        f = "/".join([m["kind"], m["dt"], hx(m["pre"]), ".".join(hx(x) for x in m["secs"]), hx(olines[k])])
+        if cur is not None and cur == m["block"]:
+            reqs[-1] += " " + f; idx[-1].append(k)
+        else:
+            reqs.append("copaint.block 1 " + f); idx.append([k]); cur = m["block"]
+    return reqs, idx
+
+
+def run_painted(ctx, rep):
+    """(4) model's painted bytes vs the real line, both stripped by the Lean terminal model, on combined diffs with mixed
+    prefix columns; the oracle `output line i shows input line i` on the same runs"""
+    rng = ctx.rng
+    jobs = []
+    for i in range(ctx.n(40, 1200)):
+        lines, meta = gen_painted_diff(rng)
+        extra = list(rng.choice(PAINT_EXTRA))
+        zero_bg = i % 10 == 9
+        if zero_bg:
+            extra = list(rng.choice(ZERO_BG))
+        jobs.append(dict(args=["--no-gitconfig", "--color-only"] + extra, lines=lines, meta=meta, zero_bg=zero_bg,
+                         tag="+".join(x for x in extra if x.startswith("--")) or "plain"))
+
+    def case_of(j):
+        return dict(args=j["args"], input_b64=b64(("\n".join(j["lines"]) + "\n").encode()), family="painted")
+
+    def one(j):
+        return run_case(ctx, case_of(j), ("\n".join(j["lines"]) + "\n").encode())
+    mdl = ctx.model("drv_machine") if ctx.drivers_ok else None
+    allreqs, owner = [], []
+    results = list(zip(jobs, parallel_map(one, jobs)))
+    for jn, (j, (rc, out, err)) in enumerate(results):
+        lines, meta = j["lines"], j["meta"]
+        case = case_of(j)
+        rep.case(key=("painted", tuple(j["args"]), tuple(lines)), nontrivial=True,
+                 sample=dict(level="painted", args=j["args"], head=lines[4:8]))
+        rep.count("painted-opt:" + j["tag"])
+        if rc != 0:
+            rep.violation(f"exit:{rc}:painted", f"delta {' '.join(j['args'])} exited {rc}: {err[-200:]!r}", case); continue
+        olines = out.split(b"\n")
+        if olines and olines[-1] == b"":
+            olines.pop()
+        if len(olines) != len(lines):
+            rep.violation("line-count:painted:" + j["tag"], f"{len(olines)} output lines for {len(lines)} input lines", case); continue
+        j["olines"] = olines
+        for k, (o, l) in enumerate(zip(olines, lines)):
+            want, got = l.encode(), M.strip_ansi(o)
+            if got != want:
+                if j["zero_bg"] and meta[k] and meta[k]["kind"] == "z" and got.rstrip(b" ") == want.rstrip(b" ") and len(got) > len(want):
+                    sig = "text-changed:painted:zero-style-background:trailing-blanks"
+                else:
+                    sig = "text-changed:painted:" + painted_class(meta, k) + (":zero-style-background" if j["zero_bg"] else "")
+                rep.violation(sig, f"line {k}: shows {got[:80]!r} for input {want[:80]!r}", dict(case, line=k))
+                break
+        if mdl and not j["zero_bg"]:
+            reqs, idx = copaint_requests(meta, olines)
+            for r, ks in zip(reqs, idx):
+                allreqs.append(r); owner.append((jn, ks))
+    if mdl and allreqs:
+        resp = mdl.ask(allreqs)
+        if resp and resp[0].startswith("ERR") and "bad" not in resp[0] and not any(r.startswith("ok") for r in resp):
+            rep.notes["copaint-driver"] = "answers: " + resp[0][:120]
+        for r, (jn, ks) in zip(resp, owner):
+            j = jobs[jn]
+            dis = []
+            if not r.startswith("ok "):
+                dis.append("model: " + r[:80])
+            else:
+                for k, f in zip(ks, r[3:].split(";")):
+                    mv, rv, row = f.split("/")
+                    want = hx(j["lines"][k])
+                    if not (mv == rv == row == want):
+                        dis.append(f"line {k} ({painted_class(j['meta'], k)}): model shows {mv}, the real line {rv}, machine row {row}, input {want}")
+            rep.corr_case("copaint.block", not dis, dict(case_of(j), lines=ks, disagreement=dis[:2]))
+    elif not mdl:
+        rep.count("copaint.block:no-model-driver(skipped)")
+
+
 def run(ctx, rep):
     rep.rule = ("streams git can hand to a pager / interactive.diffFilter (plain or git-coloured diffs, commit metadata + diffstat, all file "
                 "events incl. binary sections and submodule bumps, combined diffs, plain diff -u, lightly mutated ones) x --color-only crossed "
@@ -448,6 +615,9 @@ def run(ctx, rep):
                 if cfg.get(k) != v:
                     rep.violation(f"config:preset-missing:{k}:" + src, f"--show-config reports {k} = {cfg.get(k)!r}, the preset is {v!r}", case)
 
+    # (4) the bytes painted for hunk lines
+    run_painted(ctx, rep)
+
 
 def replay(ctx, rep, obj):
     import base64
@@ -470,3 +640,9 @@ def replay(ctx, rep, obj):
     print("rc", rc, "lines in/out", n_in, n_out)
     if n_in != n_out:
         rep.violation(obj.get("signature", "line-count"), "replayed", c)
+    elif c.get("line") is not None and c.get("family") == "painted":
+        k = c["line"]
+        want, got = data.split(b"\n")[k], M.strip_ansi(out.split(b"\n")[k])
+        print("line", k, "shows", got[:80], "for", want[:80])
+        if got != want:
+            rep.violation(obj.get("signature", "text-changed:painted"), "replayed", c)
